@@ -78,7 +78,13 @@ type CallSpec struct {
 	NoSendWait bool           `json:"no_send_wait,omitempty"`
 	Payload    int            `json:"payload,omitempty"`
 	Thread     int            `json:"thread,omitempty"`
+	// Cause: the context is created with context.WithCancelCause / WithTimeoutCause and ends with
+	// a cause of the caller's own (ctx.Err() is still Canceled / DeadlineExceeded).
+	Cause bool `json:"cause,omitempty"`
 }
+
+// ErrCause is the cancellation cause of contexts created with CallSpec.Cause.
+var ErrCause = errors.New("verif: the caller's own cancellation cause")
 
 // Call is the run-time state of one call.
 type Call struct {
@@ -376,13 +382,22 @@ func (c *Client) NewCall(idx int, token uint64, seq uint64, spec CallSpec) *Call
 	switch spec.Ctx {
 	case "", "background":
 		call.ctx, call.cancel = context.Background(), func() {}
-	case "cancel":
-		call.ctx, call.cancel = context.WithCancel(context.Background())
+	case "cancel", "precancelled":
+		if spec.Cause {
+			ctx, cc := context.WithCancelCause(context.Background())
+			call.ctx, call.cancel = ctx, func() { cc(ErrCause) }
+		} else {
+			call.ctx, call.cancel = context.WithCancel(context.Background())
+		}
+		if spec.Ctx == "precancelled" {
+			call.cancel()
+		}
 	case "deadline":
-		call.ctx, call.cancel = context.WithTimeout(context.Background(), time.Duration(spec.DeadlineUs)*time.Microsecond)
-	case "precancelled":
-		call.ctx, call.cancel = context.WithCancel(context.Background())
-		call.cancel()
+		if spec.Cause {
+			call.ctx, call.cancel = context.WithTimeoutCause(context.Background(), time.Duration(spec.DeadlineUs)*time.Microsecond, ErrCause)
+		} else {
+			call.ctx, call.cancel = context.WithTimeout(context.Background(), time.Duration(spec.DeadlineUs)*time.Microsecond)
+		}
 	default:
 		panic("unknown ctx kind " + spec.Ctx)
 	}
